@@ -4,6 +4,7 @@ package harness
 
 import (
 	"fmt"
+	"os"
 	"path/filepath"
 	"strconv"
 	"sync/atomic"
@@ -37,14 +38,29 @@ func TestC03CrashImage(t *testing.T) {
 		idxDir := filepath.Join(dir, "idx")
 		g := newPersisterGate("persist.afterNotifyWaiters")
 		win, img := &windowGate{}, &windowGate{}
+		var extraGate atomic.Pointer[windowGate]
+		variant := rapid.SampledFrom([]string{"merge-window", "merge-window", "intro-window"}).Draw(t, "variant")
+		if v := os.Getenv("VERIF_DEBUG_VARIANT"); v != "" {
+			variant = v
+		}
 		InstallHook(HookPlan{Mode: "count"})
-		SetOnPoint(func(p string) { win.onPoint(p); img.onPoint(p); g.onPoint(p) })
+		SetOnPoint(func(p string) {
+			win.onPoint(p)
+			img.onPoint(p) // before the extra gate: an image gate armed while the persister stands at the extra gate is for its NEXT visit
+			if x := extraGate.Load(); x != nil {
+				x.onPoint(p)
+			}
+			g.onPoint(p)
+		})
 		idx, err := cfg.Create(idxDir, WorldMapping())
 		if err != nil {
 			t.Fatalf("create: %v", err)
 		}
 		defer func() {
 			win.open()
+			if x := extraGate.Load(); x != nil {
+				x.open()
+			}
 			img.open()
 			g.release()
 			SetOnPoint(nil)
@@ -54,7 +70,7 @@ func TestC03CrashImage(t *testing.T) {
 		var batches [][]Op
 		var persisted atomic.Int64
 		var hist []string
-		write := func(label string) {
+		gen := func(label string) (int, []Op) {
 			n := rapid.IntRange(1, 3).Draw(t, label+".nops")
 			var ops []Op
 			seq := len(batches) + 1
@@ -66,6 +82,11 @@ func TestC03CrashImage(t *testing.T) {
 					ops = append(ops, Op{Kind: OpIndex, ID: id, Doc: Doc{"t": {S: []string{genWords(t, label+".w", 1, 2)}}, "n": {N: []float64{float64(seq)}, NS: []string{strconv.Itoa(seq)}}}})
 				}
 			}
+			batches = append(batches, ops)
+			hist = append(hist, fmt.Sprintf("%s#%d%v", label, seq, opsBrief(ops)))
+			return seq, ops
+		}
+		apply := func(seq int, ops []Op) error {
 			b := idx.NewBatch()
 			for _, o := range ops {
 				if o.Kind == OpIndex {
@@ -85,11 +106,13 @@ func TestC03CrashImage(t *testing.T) {
 					}
 				}
 			})
-			batches = append(batches, ops)
-			if err := idx.Batch(b); err != nil {
+			return idx.Batch(b)
+		}
+		write := func(label string) {
+			seq, ops := gen(label)
+			if err := apply(seq, ops); err != nil {
 				t.Fatalf("batch %d: %v", seq, err)
 			}
-			hist = append(hist, fmt.Sprintf("%s#%d%v", label, seq, opsBrief(ops)))
 		}
 		// some persisted history, then park the persister at the end of a round
 		write("pre")
@@ -104,30 +127,66 @@ func TestC03CrashImage(t *testing.T) {
 		for i, k := 0, rapid.IntRange(2, 4).Draw(t, "memsegs"); i < k; i++ {
 			write(fmt.Sprintf("mem%d", i))
 		}
-		win.arm("persist.memMerge.afterFiles")
-		img.arm(imagePoint)
-		hist = append(hist, "persister-round-starts")
-		go g.round(10 * time.Second)
 		inside, atImage := 0, false
-		select {
-		case <-win.reached:
-			hist = append(hist, "in-memory-merge-built")
-			for i, n := 0, rapid.IntRange(1, 2).Draw(t, "inside"); i < n; i++ {
-				write(fmt.Sprintf("inside%d", i))
-				inside++
+		if variant == "merge-window" {
+			win.arm("persist.memMerge.afterFiles")
+			img.arm(imagePoint)
+			hist = append(hist, "persister-round-starts")
+			go g.round(10 * time.Second)
+			select {
+			case <-win.reached:
+				hist = append(hist, "in-memory-merge-built")
+				for i, n := 0, rapid.IntRange(1, 2).Draw(t, "inside"); i < n; i++ {
+					write(fmt.Sprintf("inside%d", i))
+					inside++
+				}
+				win.open()
+			case <-img.reached:
+				// no in-memory merge in this configuration: the round went straight to its commit
+				atImage = true
+			case <-time.After(20 * time.Second):
+				t.Fatalf("harness: the persister round reached neither the merge window nor %s (history %v)", imagePoint, hist)
+			}
+		} else {
+			// a batch stands in the introducer (before the root swap) while a persister round
+			// starts; the image is taken when the NEXT round begins, i.e. after everything the
+			// first round acknowledged
+			imagePoint = "persist.begin (next round)"
+			win.arm("intro.segment.beforeSwap")
+			seq, ops := gen("inintro")
+			done := make(chan error, 1)
+			go func() { done <- apply(seq, ops) }()
+			select {
+			case <-win.reached:
+			case <-time.After(20 * time.Second):
+				t.Fatalf("harness: the batch did not reach the introducer (history %v)", hist)
+			}
+			begin := &windowGate{}
+			begin.arm("persist.begin")
+			prev := extraGate.Swap(begin)
+			_ = prev
+			hist = append(hist, "persister-round-starts-while-a-batch-is-in-the-introducer")
+			go g.round(10 * time.Second)
+			select {
+			case <-begin.reached:
+			case <-time.After(20 * time.Second):
+				win.open()
+				t.Fatalf("harness: the persister round did not start (history %v)", hist)
 			}
 			win.open()
-		case <-img.reached:
-			// no in-memory merge in this configuration: the round went straight to its commit
-			atImage = true
-		case <-time.After(20 * time.Second):
-			t.Fatalf("harness: the persister round reached neither the merge window nor %s (history %v)", imagePoint, hist)
+			if err := <-done; err != nil {
+				t.Fatalf("batch %d: %v", seq, err)
+			}
+			inside++
+			img.arm("persist.begin")
+			g.release() // the round must run on into the next one
+			begin.open()
 		}
 		if !atImage {
 			select {
 			case <-img.reached:
 			case <-time.After(30 * time.Second):
-				t.Fatalf("harness: the persister round did not reach %s (config %s, history %v)", imagePoint, cfg, hist)
+				t.Fatalf("harness: the persister did not reach %s (config %s, history %v)", imagePoint, cfg, hist)
 			}
 		}
 		// the crash image
@@ -138,6 +197,9 @@ func TestC03CrashImage(t *testing.T) {
 			t.Fatalf("harness: %v", err)
 		}
 		hist = append(hist, fmt.Sprintf("image-taken-at-%s(persisted callbacks up to %d)", imagePoint, floor))
+		if os.Getenv("VERIF_DEBUG_VARIANT") != "" {
+			fmt.Printf("DEBUG history %v p-floor=%d\n", hist, floor)
+		}
 		img.open()
 		g.release()
 		SetOnPoint(nil) // the image is opened without gates
@@ -195,7 +257,7 @@ func TestC03CrashImage(t *testing.T) {
 		if d := obs.DiffModel(m2, DocIDs, []string{"seq"}); d != "" {
 			t.Fatalf("crash image at batch %d, one more batch, Close and reopen: %s (%s)", p, d, desc())
 		}
-		cl := []string{"crash-image", "image-at:" + imagePoint}
+		cl := []string{"crash-image", "crash-image:" + variant, "image-at:" + imagePoint}
 		if inside > 0 {
 			cl = append(cl, "batch-introduced-inside-a-background-window")
 		}
